@@ -3,7 +3,7 @@
 //! through the fragmenting shim; plus raw http requests into the server stack (C05 request side).
 //!
 //! Stimulus:
-//!   mode: "client" | "raw"
+//!   mode: "client" | "raw" | "mock" | "wire"
 //!   transport: "inproc" | "h2"; shim: {rq, wq, pend, cap}
 //!   shape: "unary" | "cstream" | "sstream" | "bidi"
 //!   server: {send:[enc..], accept:[enc..], max_dec, max_enc}
@@ -504,6 +504,74 @@ async fn run_raw(stim: &Value, log: &Rec) {
     }
 }
 
+// ---------------------------------------------------------------- mode "wire": bare h2 client against the whole transport server
+/// A layer a user might add with Server::builder().layer(..): it fails the call with a Status in its error chain (fail_code >= 0,
+/// the way tower's load-shed / rate-limit style layers do) or passes it on.
+#[derive(Clone)]
+pub struct FailSvc<S> { inner: S, code: i64, how: String }
+impl<S, B> Service<http::Request<B>> for FailSvc<S>
+where S: Service<http::Request<B>>, S::Error: Into<BoxErr>, S::Future: Send + 'static {
+    type Response = S::Response;
+    type Error = BoxErr;
+    type Future = Pin<Box<dyn Future<Output = Result<S::Response, BoxErr>> + Send>>;
+    fn poll_ready(&mut self, cx: &mut Context<'_>) -> Poll<Result<(), BoxErr>> { self.inner.poll_ready(cx).map_err(Into::into) }
+    fn call(&mut self, req: http::Request<B>) -> Self::Future {
+        if self.code >= 0 {
+            let mut st = Status::new(Code::from_i32(self.code as i32), "refused by a layer");
+            st.metadata_mut().insert("x-layer", "1".parse().unwrap());
+            let e: BoxErr = match self.how.as_str() { "source" => Box::new(Wrapped(st)), "source2" => Box::new(std::io::Error::other(Wrapped(st))), _ => Box::new(st) };
+            return Box::pin(async move { Err(e) });
+        }
+        let f = self.inner.call(req);
+        Box::pin(async move { f.await.map_err(Into::into) })
+    }
+}
+
+/// mode "wire": the request (stim.raw, one unflagged message) is written by a bare h2 client and answered by everything
+/// tonic::transport::Server puts around the service - its timeout (server.timeout_ms and the request's own grpc-timeout), a user
+/// layer, the error recovery that turns a failed call into a response. What is recorded is what is on the wire.
+async fn run_wire(stim: &Value, log: &Rec) {
+    let (c_io, s_io, _dead) = Shim::pair(65536, 65536, 65536, 0);
+    let svc = build_server(stim, log);
+    let incoming = tokio_stream::StreamExt::chain(tokio_stream::once(Ok::<_, std::io::Error>(s_io)), tokio_stream::pending());
+    let mut sb = tonic::transport::Server::builder();
+    if let Some(t) = dur_of(&stim["server"], "timeout_ms", "timeout_us") { sb = sb.timeout(t); }
+    let (code, how) = (stim["server"]["fail_code"].as_i64().unwrap_or(-1), stim["server"]["fail_how"].as_str().unwrap_or("direct").to_string());
+    let mut sb = sb.layer(tower::layer::layer_fn(move |inner| FailSvc { inner, code, how: how.clone() }));
+    let srv = tokio::spawn(async move { let _ = sb.add_service(svc).serve_with_incoming(incoming).await; });
+    let raw = &stim["raw"];
+    let (mut client, conn) = match h2::client::handshake(c_io).await { Ok(x) => x, Err(e) => { log.ev(json!({"e":"connect_err","msg":e.to_string()})); return; } };
+    let connt = tokio::spawn(async move { let _ = conn.await; });
+    let mut b = http::Request::builder().method("POST").uri(format!("http://lab.test{}", raw["uri"].as_str().unwrap_or("/")));
+    let mut skipped = 0;
+    for h in raw["headers"].as_array().cloned().unwrap_or_default() {
+        match (http::header::HeaderName::from_bytes(h["n"].as_str().unwrap_or("").as_bytes()), http::HeaderValue::from_bytes(&json_bytes(&h["v"]))) {
+            (Ok(n), Ok(v)) => { b = b.header(n, v); }
+            _ => skipped += 1,
+        }
+    }
+    let req = b.body(()).expect("wire request");
+    log.ev(json!({"e":"raw_sent","skipped":skipped,"list":headers_json(req.headers())}));
+    let body_bytes = crate::labs::framing::frame(0, &json_bytes(&raw["msg"]));
+    let r: Result<(), String> = async {
+        let (resp, mut send) = client.send_request(req, false).map_err(|e| e.to_string())?;
+        send.send_data(Bytes::from(body_bytes), true).map_err(|e| e.to_string())?;
+        let resp = resp.await.map_err(|e| e.to_string())?;
+        let (p, mut body) = resp.into_parts();
+        log.ev(json!({"e":"resp_head","status":p.status.as_u16(),"list":headers_json(&p.headers),"eos":body.is_end_stream()}));
+        while let Some(ch) = body.data().await {
+            let ch = ch.map_err(|e| e.to_string())?;
+            let _ = body.flow_control().release_capacity(ch.len());
+            log.ev(json!({"e":"frame","side":"resp","k":"data","bytes":bytes_json(&ch)}));
+        }
+        if let Some(t) = body.trailers().await.map_err(|e| e.to_string())? { log.ev(json!({"e":"frame","side":"resp","k":"trailers","list":headers_json(&t)})); }
+        log.ev(json!({"e":"frame","side":"resp","k":"end"}));
+        Ok(())
+    }.await;
+    if let Err(m) = r { log.ev(json!({"e":"raw_err","msg":m})); }
+    srv.abort(); connt.abort();
+}
+
 pub fn run(stim: &Value, rec: &Rec) {
     let mode = stim["mode"].as_str().unwrap_or("client");
     let transport = stim["transport"].as_str().unwrap_or("inproc");
@@ -511,6 +579,7 @@ pub fn run(stim: &Value, rec: &Rec) {
         match (mode, transport) {
             ("raw", _) => run_raw(stim, rec).await,
             ("mock", _) => run_mock(stim, rec).await,
+            ("wire", _) => run_wire(stim, rec).await,
             (_, "h2") => run_client_h2(stim, rec).await,
             _ => run_client_inproc(stim, rec).await,
         }
